@@ -4,6 +4,7 @@ import (
 	"fmt"
 	"go/token"
 	"go/types"
+	"regexp"
 	"sort"
 	"strconv"
 	"strings"
@@ -248,6 +249,9 @@ func presenceCheck(c *Check, id string) {
 			roles := g.byFam[fam]
 			name := g.co.Spec.Name + ":" + shortFam(fam)
 			pt := &presenceTable{map[string]map[string][]string{}, map[string]map[string][]string{}, map[string]map[string][]string{}}
+			if id == "C04" {
+				g.tl2BitsSetByProducers(c, name, roles)
+			}
 			hasAccessors := false
 			allGuards := map[string]bool{}
 			for _, role := range sortedKeys(roles) {
@@ -810,5 +814,53 @@ func (g *genCtx) maskOpGuards(c *Check, construct string, s *site) {
 		}
 		c.Ob("accessor/bit-update-unconditional", construct+"/"+mo.Target.String(), len(bad) == 0, posStr(g.co.Fset, mo.Pos),
 			"update of "+mo.Target.String()+" is conditional on "+strings.Join(bad, " && "))
+	}
+}
+
+var tl2BitUseRx = regexp.MustCompile(`bit\((item\.tl2mask\d+),(\d+)\)`)
+var tl2BitSetRx = regexp.MustCompile(`assign (item\.tl2mask\d+) \|= #(\d+)\n`)
+
+// tl2BitsSetByProducers: every hidden presence bit that the TL2/JSON writers test is set somewhere by each
+// function that produces a value from another representation (ReadTL1, RepairMasks, ReadJSONGeneral,
+// FillRandom) — also when the guarding mask is a constant (specialised types `T 7`), where the guard is
+// folded to `if true`. A bit no producer sets makes the field vanish on the way TL1 → TL2.
+func (g *genCtx) tl2BitsSetByProducers(c *Check, name string, roles map[string]*FuncInfo) {
+	used := map[string]bool{}
+	for _, role := range []string{"InternalWriteTL2", "CalculateLayout", "WriteJSONOpt"} {
+		if fi := roles[role]; fi != nil {
+			for _, m := range tl2BitUseRx.FindAllStringSubmatch(blockText(g.ir(fi).Body), -1) {
+				used[m[1]+"|"+m[2]] = true
+			}
+		}
+	}
+	if len(used) == 0 {
+		return
+	}
+	for _, role := range []string{"ReadTL1", "RepairMasks", "ReadJSONGeneral", "FillRandom"} {
+		fi := roles[role]
+		if fi == nil {
+			continue
+		}
+		txt := blockText(g.ir(fi).Body)
+		if !strings.Contains(txt, "tl2mask") && (strings.Contains(txt, "call panic") || strings.Contains(txt, "not implemented for tl2 type") || strings.Contains(txt, "ErrorTL2SerializersNotGenerated")) {
+			continue // "not generated"/"not implemented" stub of a type that does not exist in this format
+		}
+		set := map[string]bool{}
+		for _, m := range tl2BitSetRx.FindAllStringSubmatch(txt, -1) {
+			v, _ := strconv.ParseUint(m[2], 10, 64)
+			for j := 0; j < 64; j++ {
+				if v == 1<<uint(j) {
+					set[m[1]+"|"+strconv.Itoa(j)] = true
+				}
+			}
+		}
+		var missing []string
+		for u := range used {
+			if !set[u] {
+				missing = append(missing, strings.Replace(u, "|", " bit ", 1))
+			}
+		}
+		sort.Strings(missing)
+		c.Ob("presence/tl2-bit-set-by-every-producer", name+"/"+role, len(missing) == 0, posStr(g.co.Fset, fi.Decl.Pos()), fmt.Sprintf("%d hidden presence bits are tested by the TL2/JSON writers; %s sets all of them somewhere (also under constant guards); never set: %v", len(used), role, missing))
 	}
 }
